@@ -13,6 +13,7 @@ EXTENDS GeomModel
 FMAXT  == 5000        \* MAX_FREQUENCY in frequency ticks
 HZ     == 1000        \* hertz per frequency tick (centroid / point-on-surface frequencies are observed in Hz)
 MultiKinds   == {"MultiPoint", "MultiLineString", "MultiPolygon"}
+MemberKind(k) == CASE k = "MultiPoint" -> "Point" [] k = "MultiLineString" -> "LineString" [] k = "MultiPolygon" -> "Polygon" [] OTHER -> ""
 GeoJsonKinds == {"Point", "LineString", "Polygon", "MultiPoint", "MultiLineString", "MultiPolygon"}
 
 (* ------------------------------- Req ------------------------------------ *)
@@ -127,7 +128,9 @@ ImplAnchor2(pos, sb) ==
 (* o.out.steps[i].runs is what was observed for o.in.gs[i].  Every clause  *)
 (* must hold at every step: nothing may be carried over from an earlier    *)
 (* conversion.  runs is a sequence, one record per exact time unit:        *)
-(*  [bounds: <<s,l,e,h>> ticks, shape: [kind, parts],                      *)
+(*  [bounds: <<s,l,e,h>> ticks, shape: [kind, parts], stype: [tname: class *)
+(*   name, pkinds: <<<<geom_type, class name>> of each member>>],           *)
+(*                        *)
 (*   feat: <<[name, unit, dup: BOOLEAN, v: ticks], ...>> (known terms),    *)
 (*   anchors: <<<<2t, 2f>>, ...>> in the order of Positions,               *)
 (*   centroid, surface: <<limbs(time in ticks), limbs(frequency in Hz)>>,  *)
@@ -189,7 +192,13 @@ HoldsG(cl, g, R) ==
       CASE cl = "NoRaise"       -> r.raised = <<>>            \* "for every geometry ... returns": none of the four functions raises
         [] cl = "BoundsExact"   -> r.bounds = b
         \* the kind is preserved where the geometry has a shapely namesake
-        [] cl = "ShapelyKind"   -> g.type \in GeoJsonKinds => r.shape.kind = g.type
+        \* and exactly so: geom_type and class name say the kind's name, every member of a collection the member kind's name
+        [] cl = "ShapelyKind"   -> g.type \in GeoJsonKinds =>
+                                     /\ r.shape.kind = g.type /\ r.stype.tname = g.type
+                                     /\ IF g.type \in MultiKinds
+                                        THEN /\ Len(r.stype.pkinds) = NumParts(g)
+                                             /\ \A i \in DOMAIN r.stype.pkinds : r.stype.pkinds[i] = <<MemberKind(g.type), MemberKind(g.type)>>
+                                        ELSE r.stype.pkinds = <<>>
         [] cl = "ShapelyCoords" -> ShapePreserves(g, r.shape)
         [] cl = "FeaturesPresent" -> \A n \in Required(g) : \E i \in DOMAIN r.feat : r.feat[i].name = n
         [] cl = "FeatureValues" -> \A i \in DOMAIN r.feat : r.feat[i].name \in FeatNames => r.feat[i].v = FeatOf(g, b)[r.feat[i].name]
